@@ -140,6 +140,17 @@ Fixpoint vec_interest (xs : list calls) (m : meth) (a : arg) (acc : interest) : 
               | (l, _) => (l, RPoison)
               end
   end.
+Definition interest_all (any_never all_always : bool) : interest :=
+  if any_never then INever else if all_always then IAlways else ISometimes.
+Fixpoint vec_interest_all (xs : list calls) (m : meth) (a : arg) (any_never all_always : bool) : out :=
+  match xs with
+  | [] => ([], RInt (interest_all any_never all_always))
+  | x :: r => match x m a with
+              | (l, RInt ni) =>
+                  let (l2, r2) := vec_interest_all r m a (any_never || is_never ni) (all_always && is_always ni) in (l ++ l2, r2)
+              | (l, _) => (l, RPoison)
+              end
+  end.
 Fixpoint vec_hint (xs : list calls) (m : meth) (a : arg) (acc : N) : out :=
   match xs with
   | [] => ([], RHint (Some acc))
@@ -155,6 +166,7 @@ Definition vec_sem (tb : tables) (xs : list calls) (self : calls) : calls := fun
   | FwdAll CAll => vec_all xs m a
   | FwdAll CInterestHighest => vec_interest xs m a INever
   | FwdAll CInterestHighestOrAlways => match xs with [] => ([], RInt IAlways) | _ => vec_interest xs m a INever end
+  | FwdAll CInterestAll => vec_interest_all xs m a false true
   | FwdAll CHintMax => vec_hint xs m a 0
   | Missing => default_sem tb TSubscribe self m a
   | _ => poison
